@@ -5,6 +5,7 @@ package vgirpc
 import (
 	"bytes"
 	"context"
+	"errors"
 	"fmt"
 	"io"
 	"log/slog"
@@ -73,6 +74,48 @@ func (p *vfC02CancelExch) Exchange(ctx context.Context, in arrow.RecordBatch, ou
 }
 func (p *vfC02CancelExch) OnCancel(ctx context.Context, cc *CallContext) error {
 	return vfC02FailingCancel(p.Mode, cc, p.S.Pos)
+}
+
+// vfC02Texts is the alphabet of handler error TEXTS: an ordinary one and the
+// texts an application error has when the handler itself talks to a database /
+// upstream service whose connection died. What a handler's error says must not
+// change what happens to the session.
+var vfC02Texts = []string{"ordinary failure", "upstream: unexpected EOF", "upstream write: broken pipe", "read tcp 10.0.0.1:5432: connection reset by peer"}
+
+// vfC02TextProd / vfC02TextExch emit `After` turns and then fail with Text
+// (returned as a plain error, or panicked when Panic is set).
+type vfC02TextProd struct {
+	Text  string
+	After int
+	Panic bool
+	N     int
+}
+
+func (p *vfC02TextProd) Produce(ctx context.Context, out *OutputCollector, cc *CallContext) error {
+	vfEvents = append(vfEvents, VfEvent{What: "produce", Method: cc.Method, Pos: p.N})
+	p.N++
+	if p.N <= p.After {
+		return out.Emit(vfI64Batch("v", int64(p.N)))
+	}
+	if p.Panic {
+		panic(p.Text)
+	}
+	return errors.New(p.Text)
+}
+
+type vfC02TextExch struct {
+	Text  string
+	After int
+	N     int
+}
+
+func (p *vfC02TextExch) Exchange(ctx context.Context, in arrow.RecordBatch, out *OutputCollector, cc *CallContext) error {
+	vfEvents = append(vfEvents, VfEvent{What: "exchange", Method: cc.Method, Pos: p.N})
+	p.N++
+	if p.N <= p.After {
+		return out.Emit(vfI64Batch("v", int64(p.N)))
+	}
+	return errors.New(p.Text)
 }
 
 func vfC02FailingCancel(mode string, cc *CallContext, pos int) error {
@@ -160,6 +203,31 @@ func vfC02Server() *Server {
 				S: VfScript{Name: "ec_" + mode, Turns: []VfTurn{emit, emitLog, emit}, Base: p.X * 1000}}}, nil
 		}))
 	}
+	text := func(p VfXParams) string { return vfC02Texts[int(p.X)%len(vfC02Texts)] }
+	Unary(s, "t_err", func(ctx context.Context, cc *CallContext, p VfXParams) (int64, error) {
+		ev("unary", cc, p)
+		return 0, errors.New(text(p))
+	})
+	Unary(s, "t_rpcerr", func(ctx context.Context, cc *CallContext, p VfXParams) (int64, error) {
+		ev("unary", cc, p)
+		return 0, &RpcError{Type: "IOError", Message: text(p)}
+	})
+	UnaryVoid(s, "t_panic", func(ctx context.Context, cc *CallContext, p VfXParams) error {
+		ev("unary", cc, p)
+		panic(text(p))
+	})
+	Producer(s, "t_init", vfOutSchema, vfInitHandler(func(p VfXParams) (*StreamResult, error) {
+		return nil, errors.New(text(p))
+	}))
+	Producer(s, "t_prod", vfOutSchema, vfInitHandler(func(p VfXParams) (*StreamResult, error) {
+		return &StreamResult{OutputSchema: vfOutSchema, State: &vfC02TextProd{Text: text(p), After: 1}}, nil
+	}))
+	Producer(s, "t_prodpanic", vfOutSchema, vfInitHandler(func(p VfXParams) (*StreamResult, error) {
+		return &StreamResult{OutputSchema: vfOutSchema, State: &vfC02TextProd{Text: text(p), After: 0, Panic: true}}, nil
+	}))
+	Exchange(s, "t_exch", vfOutSchema, vfInSchema, vfInitHandler(func(p VfXParams) (*StreamResult, error) {
+		return &StreamResult{OutputSchema: vfOutSchema, State: &vfC02TextExch{Text: text(p), After: 1}}, nil
+	}))
 	Producer(s, "i_err", vfOutSchema, vfInitHandler(func(p VfXParams) (*StreamResult, error) {
 		return nil, &RpcError{Type: "ValueError", Message: "init refused"}
 	}))
@@ -213,6 +281,41 @@ func vfC02Inputs(schema *arrow.Schema, specs ...string) []byte {
 
 var vfC02I32Schema = arrow.NewSchema([]arrow.Field{{Name: "x", Type: arrow.PrimitiveTypes.Int32}}, nil)
 var vfC02StrSchema = arrow.NewSchema([]arrow.Field{{Name: "x", Type: arrow.BinaryTypes.String}}, nil)
+
+type vfC02Site struct {
+	name, class string
+	wire        func(x int64) []byte
+}
+
+var vfC02TextTag = []string{"ordinary", "EOF", "broken-pipe", "connection-reset"}
+
+// vfC02TextSites lists the places a handler error / panic can come from; x
+// selects the error text (index into vfC02Texts).
+func vfC02TextSites() []vfC02Site {
+	in := func(specs ...string) []byte { return vfC02Inputs(vfInSchema, specs...) }
+	d := func(v int) string { return fmt.Sprintf(`[{"x":%d}]`, v) }
+	return []vfC02Site{
+		{"unary-plain-error", "unary-handler-error", func(x int64) []byte { return vfXReq("t_err", x) }},
+		{"unary-rpc-error", "unary-handler-error", func(x int64) []byte { return vfXReq("t_rpcerr", x) }},
+		{"unary-panic", "unary-panic", func(x int64) []byte { return vfXReq("t_panic", x) }},
+		{"init-error", "stream-init-failure", func(x int64) []byte { return vfC02Cat(vfXReq("t_init", x), vfTicks(2)) }},
+		{"producer-error@1", "mid-stream-error", func(x int64) []byte { return vfC02Cat(vfXReq("t_prod", x), vfTicks(3)) }},
+		{"producer-panic@0", "mid-stream-panic", func(x int64) []byte { return vfC02Cat(vfXReq("t_prodpanic", x), vfTicks(2)) }},
+		{"exchange-error@1", "mid-stream-error", func(x int64) []byte { return vfC02Cat(vfXReq("t_exch", x), in(d(1), d(2), d(3))) }},
+	}
+
+}
+
+func vfC02TextCall(st vfC02Site, ti int) vfC02Call {
+	// the class (used in signatures) only says whether the text looks like a
+	// closed transport; the call name keeps the exact text
+	tc := ":text=ordinary"
+	if ti > 0 {
+		tc = ":text-like-closed-transport"
+	}
+	return vfC02Call{name: st.name + "[text=" + vfC02TextTag[ti] + "]", class: st.class + tc,
+		streams: 1, fails: true, wire: func() []byte { return st.wire(int64(ti)) }}
+}
 
 func vfC02Alphabet(thorough bool) []vfC02Call {
 	ticksWithCancel := func(specs string) []byte { // "t" tick, "c" cancel
@@ -277,6 +380,13 @@ func vfC02Alphabet(thorough bool) []vfC02Call {
 		{name: "producer-param-mismatch", class: "stream-param-mismatch", streams: 1, fails: true, wire: func() []byte { return vfC02Cat(vfRequest("p_two", vfI64Batch("y", 1)), vfTicks(2)) }},
 		{name: "producer-param-mismatch-0-ticks", class: "stream-param-mismatch", streams: 1, fails: true, wire: func() []byte { return vfC02Cat(vfRequest("p_two", vfI64Batch("y", 1)), vfTicks(0)) }},
 		{name: "exchange-param-mismatch", class: "stream-param-mismatch", streams: 1, fails: true, wire: func() []byte { return vfC02Cat(vfRequest("e_echo", vfI64Batch("y", 1)), in(d(1))) }},
+	}
+	// --- error TEXT dimension: failure site x what the error says
+	sites := vfC02TextSites()
+	for si, st := range sites {
+		// the main alphabet carries each site with one transport-looking text
+		// (rotating); the full site x text product is the second space
+		calls = append(calls, vfC02TextCall(st, 1+si%3))
 	}
 	if thorough {
 		calls = append(calls,
@@ -400,8 +510,24 @@ func TestVerif_C02(t *testing.T) {
 
 	alpha := vfC02Alphabet(venum.Thorough())
 	maxLen := venum.QT(2, 3)
-	n := len(alpha)
+	n := len(alpha) // the main space draws from alpha[:n]
 	venum.SetInfo("alphabet", fmt.Sprint(n))
+	// second space: the full (failure site x error text) product, appended after
+	// the main alphabet so that both spaces share the reference machinery
+	var textCalls []int
+	for _, st := range vfC02TextSites() {
+		for ti := range vfC02Texts {
+			alpha = append(alpha, vfC02TextCall(st, ti))
+			textCalls = append(textCalls, len(alpha)-1)
+		}
+	}
+	var followUps []int
+	for i, c := range alpha[:n] {
+		switch c.name {
+		case "unary-ok", "producer-1-tick", "exchange-2-inputs":
+			followUps = append(followUps, i)
+		}
+	}
 
 	// Reference: each call alone on a fresh server and a fresh connection. The
 	// result is a pure function of (transport, call); it is computed once.
@@ -493,16 +619,7 @@ func TestVerif_C02(t *testing.T) {
 		return "", "", outcome
 	}
 
-	venum.Explore(t, venum.Cfg{Name: "call-histories", Shardable: true}, func(x *venum.X) {
-		hist := []int{x.Choose(n, "call0")}
-		for len(hist) < maxLen {
-			c := x.Choose(n+1, fmt.Sprintf("call%d(0=stop)", len(hist)))
-			if c == 0 {
-				break
-			}
-			hist = append(hist, c-1)
-		}
-		tr := vfC02Transports[x.Choose(len(vfC02Transports), "transport")]
+	judge := func(x *venum.X, tr string, hist []int) {
 		var names []string
 		for _, h := range hist {
 			names = append(names, alpha[h].name)
@@ -536,5 +653,30 @@ func TestVerif_C02(t *testing.T) {
 			x.Failf(sig, "%s", detail)
 		}
 		x.Outcome("%s|%s", tr, outcome)
+	}
+
+	venum.Explore(t, venum.Cfg{Name: "call-histories", Shardable: true}, func(x *venum.X) {
+		hist := []int{x.Choose(n, "call0")}
+		for len(hist) < maxLen {
+			c := x.Choose(n+1, fmt.Sprintf("call%d(0=stop)", len(hist)))
+			if c == 0 {
+				break
+			}
+			hist = append(hist, c-1)
+		}
+		tr := vfC02Transports[x.Choose(len(vfC02Transports), "transport")]
+		judge(x, tr, hist)
+	})
+
+	// What a handler's error SAYS must not matter: every failure site x every
+	// error text (ordinary, "...EOF", "...broken pipe", "...connection reset..."),
+	// alone and followed by a well-formed call, on each transport.
+	venum.Explore(t, venum.Cfg{Name: "error-text-histories"}, func(x *venum.X) {
+		hist := []int{textCalls[x.Choose(len(textCalls), "failing-call(site×text)")]}
+		if f := x.Choose(len(followUps)+1, "follow-up(0=none)"); f > 0 {
+			hist = append(hist, followUps[f-1])
+		}
+		tr := vfC02Transports[x.Choose(len(vfC02Transports), "transport")]
+		judge(x, tr, hist)
 	})
 }
